@@ -11251,7 +11251,7 @@ cgns_zcoor *cgi_get_zcoorGC(cgns_file *cg, int B, int Z)
         zone->zcoor->units = 0;
         zone->zcoor->nuser_data= 0;
 
-        if (cg->mode == CG_MODE_MODIFY) {
+        if (cg->mode == CG_MODE_MODIFY && !zone->link && !zone->in_link) {
          /* Create node GridCoordinates_t node in file */
             if (cgi_new_node(zone->id, "GridCoordinates", "GridCoordinates_t",
                  &zone->zcoor->id, "MT", 0, 0, 0)) return CG_OK;
